@@ -8,9 +8,12 @@ use evalexpr::Value;
 // ----------------------------------------------------------------------------- programs
 
 /// statements used to build programs with effects, calls and failures
-pub const STATEMENTS: [&str; 22] = [
+pub const STATEMENTS: [&str; 32] = [
     "a = 2", "a += 3", "b = a * 2", "a = \"s\"", "f(a)", "g(1)", "h(1)", "1/0", "zz", "true + 1", "f(1) + g(2)", "false && f(5)",
     "(a = 4, f(6))", "b", "a", "a *= 2.5", "c = (a, b)", "f(g(7))", "a -= f(1)", "9223372036854775807 + 1", "b = f(8); a = b", "g(f(zz))",
+    "zz += 1", "a /= 0", "a += true", "a = a", "true", "42",
+    // compound boolean assignments whose left value already decides the result: the right operand is still evaluated and type-checked
+    "t ||= f(1)", "u &&= g(\"x\")", "t &&= u", "u ||= f(t)",
 ];
 
 fn program_setup() -> Vec<String> {
@@ -20,6 +23,11 @@ fn program_setup() -> Vec<String> {
         format!("setf 0 {} inc", xarg("g")),
         format!("setf 0 {} fail", xarg("h")),
         format!("setv 0 {} I1", xarg("a")),
+        // variables whose names are spelled like literals are legal in a context and must never be read by a literal
+        format!("setv 0 {} I5", xarg("true")),
+        format!("setv 0 {} I0", xarg("42")),
+        format!("setv 0 {} Bt", xarg("t")),
+        format!("setv 0 {} Bf", xarg("u")),
     ]
 }
 
@@ -110,6 +118,8 @@ impl Property for C08 {
             .into_iter()
             .map(|p| {
                 let mut lines = program_setup();
+                lines.push(format!("eval 0 ro s value {}", xarg(&p)));
+                lines.push(format!("eval 0 ro t value {}", xarg(&p)));
                 lines.push(format!("eval 0 mut s value {}", xarg(&p)));
                 lines.push("dump 0".to_string());
                 Case { impl_lines: lines.clone(), drv_lines: lines, human: format!("{:?}", p), bucket: format!("stmts{}", p.matches(';').count() + 1) }
@@ -123,13 +133,19 @@ impl Property for C08 {
         let (id, md) = (&out.impl_resp[n - 1], &out.drv_resp[n - 1]);
         let ilog = ie.split(" ; ").nth(1).unwrap_or("");
         let mlog = me.split(" ; ").nth(1).unwrap_or("");
+        for k in [n - 4, n - 3] {
+            let (a, b) = (&out.impl_resp[k], &out.drv_resp[k]);
+            if !same_value_or_class(a, b) || a.split(" ; ").nth(1) != b.split(" ; ").nth(1) {
+                return Verdict::SpecViolation(format!("read-only evaluation gives result/log `{}`; the reference interpreter gives `{}`", a, b));
+            }
+        }
         if !same_value_or_class(ie, me) || ilog != mlog || id != md {
             return Verdict::SpecViolation(format!(
                 "result/log `{}` final context `{}`; the reference interpreter gives `{}` and `{}`",
                 ie, id, me, md
             ));
         }
-        let nontrivial = if !ilog.is_empty() || id != "vars=61=I1 names=61 nb=0" { Some(case.human.clone()) } else { None };
+        let nontrivial = if !ilog.is_empty() || id.matches('=').count() != 5 || !id.contains("61=I1,") { Some(case.human.clone()) } else { None };
         Verdict::Pass { nontrivial, class: class_of(eval_result(ie)) }
     }
 }
@@ -279,6 +295,8 @@ pub fn interesting_sources(rng: &mut Rng, n: usize) -> Vec<String> {
     let mut v: Vec<String> = vec![
         "1", "1.5", "\"s\"", "true", "()", "1, 2", "a", "a = 5", "a + 1", "f(2)", "zz", "1/0", "(", "1 +", "\"x", "a = 1; a", "a += 1; a * 2.0",
         "(1, \"s\", ())", "", ";", "math::sqrt(4)", "len(\"abc\")", "1 2", "/*", "a = \"s\"", "h(1)", "b = 2; b",
+        "1 / 0 +", "zz *", "a = 6; a +", "five = 6; five +", "true", "42", "true + 42", "a = 1.5; a = 2", "n = 20; n += 1; n", "\"a\" = 3; a + 1",
+        "x = 5, 7", "a = 1; b = a + 1; a, b",
     ]
     .into_iter()
     .map(String::from)
@@ -324,7 +342,7 @@ impl Property for C12 {
         (cases, false)
     }
     fn judge(&self, case: &Case, out: &Outcome) -> Verdict {
-        let base = 5; // setup lines
+        let base = program_setup().len(); // setup lines
         let get = |level: usize, kind: usize, what: usize| -> &String { &out.impl_resp[base + (level * 8 + kind) * 5 + what] };
         // what: 0 fresh, 1 ro, 3 mut, 4 dump after mut
         for level in 0..2 {
@@ -455,13 +473,32 @@ impl Property for C14 {
             let it = &out.impl_resp[n - 4];
             let names = ["identifiers", "variable", "read-variable", "write-variable", "function"];
             let parts: Vec<&str> = it.strip_prefix("ok ").unwrap_or("").split(' ').collect();
-            if parts.len() != 5 {
+            if parts.len() < 5 {
                 return Verdict::SpecViolation(format!("iterators: `{}`", it));
             }
             for i in 0..5 {
                 let want = format!("{}/{}", wants[i], wants[i]);
                 if parts[i] != want {
                     return Verdict::SpecViolation(format!("iter_{}_identifiers (immutable/mutable) lists `{}`, the source has `{}`", names[i], parts[i], wants[i]));
+                }
+            }
+            // internal iteration after a partial external one visits the same remaining occurrences in the same order
+            if parts.len() >= 6 {
+                let all: Vec<&str> = occs.iter().map(|(_, n)| *n).collect();
+                let vars: Vec<&str> = occs.iter().filter(|(c, _)| *c != "f").map(|(_, n)| *n).collect();
+                let reads: Vec<&str> = occs.iter().filter(|(c, _)| *c == "r").map(|(_, n)| *n).collect();
+                let want = format!(
+                    "{};{};{};{}",
+                    all.first().copied().unwrap_or(""),
+                    all.iter().skip(1).copied().collect::<Vec<_>>().join(","),
+                    vars.iter().skip(1).last().copied().unwrap_or(""),
+                    reads.iter().skip(2).copied().collect::<Vec<_>>().join(",")
+                );
+                if parts[5] != want {
+                    return Verdict::SpecViolation(format!(
+                        "next() then for_each / skip(1).last() / next, next, fold over the identifier iterators gives `{}`, the source order is `{}`",
+                        parts[5], want
+                    ));
                 }
             }
             // renaming does not change the result
@@ -498,7 +535,7 @@ impl Property for C09 {
     }
     fn rule(&self) -> String {
         "the complete configuration matrix: (49 builtin names + 5 other names) x {EmptyContext, EmptyContextWithBuiltinFunctions, HashMapContext x builtin switch x user function (none / identity / constant / failing / returning FunctionIdentifierNotFound) \
-         x variable of the same name x cloned x after clear_functions} x call forms {n(x), n x, n(), n(x, y), m n x}: resolution (user function first, then builtins unless disabled, else the unknown-function error naming n) and argument shape (recorded by the user function) as stated. \
+         x variable of the same name x {as is, cloned, clone_from into a context with the opposite switch, after clear_functions}} x call forms {n(x), n x, n(), n(x, y), m n x}: resolution (user function first, then builtins unless disabled, else the unknown-function error naming n) and argument shape (recorded by the user function) as stated. \
          non-trivial = a function is resolved (user or builtin); distinct = distinct configuration"
             .into()
     }
@@ -513,7 +550,7 @@ impl Property for C09 {
                     let fns: &[&str] = if ctx == "hm" { &["none", "id", "kI7", "fail", "notfound"] } else { &["none"] };
                     for f in fns {
                         for var in [false, true] {
-                            for post in ["plain", "clone", "clearf"] {
+                            for post in ["plain", "clone", "clonefrom", "clearf"] {
                                 if ctx != "hm" && (var || post != "plain") {
                                     continue;
                                 }
@@ -535,6 +572,15 @@ impl Property for C09 {
                                         lines.push("clone 0 1".to_string());
                                         1
                                     },
+                                    "clonefrom" => {
+                                        // into an existing context with the opposite switch and other bindings
+                                        lines.push("new 1 hm".to_string());
+                                        lines.push(format!("setb 1 {}", if *sw == "0" { "1" } else { "0" }));
+                                        lines.push(format!("setf 1 {} kI9", xarg(name)));
+                                        lines.push(format!("setv 1 {} I8", xarg("x")));
+                                        lines.push("clonefrom 0 1".to_string());
+                                        1
+                                    },
                                     "clearf" => {
                                         lines.push("clearf 0".to_string());
                                         0
@@ -551,6 +597,9 @@ impl Property for C09 {
                                     format!("{}({}, {})", name, arg, arg2),
                                     format!("{} {} {}", m, name, arg),
                                     format!("{}", name),
+                                    format!("{} true", name),
+                                    format!("{} \"s\"", name),
+                                    format!("{} 1.5", name),
                                 ] {
                                     lines.push(format!("eval {} ro s value {}", slot, xarg(&form)));
                                 }
@@ -584,7 +633,10 @@ impl Property for C09 {
         let hname = hex(name.as_bytes());
         let notfound = format!("err FunctionIdentifierNotFound[{}]", hname);
         let (a1, a2) = if ctx == "hm" { ("I2", "I3") } else { ("I2", "I3") };
-        let arg_shapes = [a1.to_string(), a1.to_string(), "E".to_string(), format!("T({},{})", a1, a2), a1.to_string()];
+        let arg_shapes = [
+            a1.to_string(), a1.to_string(), "E".to_string(), format!("T({},{})", a1, a2), a1.to_string(), String::new(), "Bt".to_string(), "S73".to_string(),
+            "F3ff8000000000000".to_string(),
+        ];
         let mut resolved = false;
         for (k, &i) in evals.iter().enumerate() {
             let r = &out.impl_resp[i];
@@ -657,7 +709,7 @@ pub struct C04;
 
 fn ctx_values() -> Vec<Value> {
     vec![
-        Value::Int(1), Value::Int(7), Value::Float(1.5), Value::String("s".into()), Value::Boolean(true), Value::Empty,
+        Value::Int(1), Value::Int(7), Value::Float(1.5), Value::Float(0.0), Value::Float(-0.0), Value::String("s".into()), Value::Boolean(true), Value::Empty,
         Value::Tuple(vec![Value::Int(1)]), Value::Tuple(vec![Value::Int(1), Value::String("t".into())]),
     ]
 }
@@ -669,6 +721,9 @@ fn ctx_ops(values: &[Value]) -> Vec<String> {
             ops.push(format!("setv 0 {} {}", xarg(name), enc_value(v)));
             if let Some(lit) = super::c03::literal(v) {
                 ops.push(format!("eval 0 mut s value {}", xarg(&format!("{} = {}", name, lit))));
+            } else if let Value::Float(f) = v {
+                // a negative float is written as a negated literal
+                ops.push(format!("eval 0 mut s value {}", xarg(&format!("{} = -{:?}", name, -f))));
             }
         }
         for op in ["+=", "-=", "*=", "/=", "%=", "^=", "&&=", "||="] {
@@ -680,7 +735,12 @@ fn ctx_ops(values: &[Value]) -> Vec<String> {
         ops.push(format!("setf 0 {} id", xarg(name)));
         ops.push(format!("callf 0 {} I1", xarg(name)));
     }
-    ops.extend(["clearv 0", "clearf 0", "clear 0", "setb 0 1", "setb 0 0", "clone 0 1", "clone 1 0"].iter().map(|s| s.to_string()));
+    // a user function under a builtin's name: the function map is a map for these names too, whatever the builtin switch
+    ops.push(format!("setf 0 {} kI42", xarg("len")));
+    ops.push(format!("callf 0 {} S6162", xarg("len")));
+    ops.push(format!("eval 0 mut s value {}", xarg("len(\"abc\")")));
+    ops.push(format!("eval 0 ro s value {}", xarg("len(\"abc\")")));
+    ops.extend(["clearv 0", "clearf 0", "clear 0", "setb 0 1", "setb 0 0", "clone 0 1", "clone 1 0", "clonefrom 0 1", "clonefrom 1 0"].iter().map(|s| s.to_string()));
     ops
 }
 
@@ -701,6 +761,8 @@ impl Property for C04 {
             lines.push("dump 1".to_string());
             lines.push(format!("callf 0 {} I1", xarg("a")));
             lines.push(format!("callf 1 {} I1", xarg("b")));
+            lines.push(format!("callf 0 {} S61", xarg("len")));
+            lines.push(format!("callf 1 {} S61", xarg("len")));
         };
         let mut cases = Vec::new();
         let mk = |hist: &[&String], bucket: &str| -> Case {
@@ -723,7 +785,13 @@ impl Property for C04 {
             for op in hist {
                 sess.handle(op);
             }
-            format!("{}|{}|{}", sess.handle("dump 0"), sess.handle(&format!("callf 0 {} I1", xarg("a"))), sess.handle(&format!("callf 0 {} I1", xarg("b"))))
+            format!(
+                "{}|{}|{}|{}",
+                sess.handle("dump 0"),
+                sess.handle(&format!("callf 0 {} I1", xarg("a"))),
+                sess.handle(&format!("callf 0 {} I1", xarg("b"))),
+                sess.handle(&format!("callf 0 {} S61", xarg("len")))
+            )
         };
         let mut seen: std::collections::HashMap<String, Vec<&String>> = std::collections::HashMap::new();
         let mut frontier: Vec<Vec<&String>> = vec![vec![]];
@@ -747,6 +815,20 @@ impl Property for C04 {
             }
         }
         let n_states = seen.len();
+        // beyond the state space: the same expression operations through every typed entry point, on source strings and on
+        // precompiled trees (an assignment takes effect whichever entry point evaluates it)
+        let mut ops = ops.clone();
+        let kinds = ["string", "int", "float", "number", "boolean", "tuple", "empty", "value"];
+        let plain: Vec<String> = ops.iter().filter(|o| o.starts_with("eval 0 mut s value ")).cloned().collect();
+        for (i, o) in plain.iter().enumerate() {
+            let src = o.rsplit(' ').next().unwrap();
+            ops.push(format!("eval 0 mut t {} {}", kinds[i % 8], src));
+            ops.push(format!("eval 0 mut s {} {}", kinds[(i / 8 + i) % 8], src));
+            ops.push(format!("eval 0 mut t {} {}", kinds[(i / 8 + i + 3) % 8], xarg(&format!("{}; {}", unx(src), unx(src).split(' ').next().unwrap()))));
+        }
+        for o in ops.iter().filter(|o| o.starts_with("eval 0 mut t ")) {
+            cases.push(mk(&[o], "typed-entry"));
+        }
         for a in &ops {
             for b in &ops {
                 if a.starts_with("clone") || b.starts_with("clone") {
